@@ -3,7 +3,6 @@ package code39
 
 import (
 	"errors"
-	"strconv"
 	"strings"
 
 	"github.com/boombuler/barcode"
@@ -75,18 +74,25 @@ var extendedTable = map[rune]string{
 	127: `%T`,
 }
 
-func getChecksum(content string) string {
+func checksumValue(content string) (int, bool) {
 	sum := 0
 	for _, r := range content {
 		info, ok := encodeTable[r]
 		if !ok || info.value < 0 {
-			return "#"
+			return 0, false
 		}
 
 		sum += info.value
 	}
 
-	sum = sum % 43
+	return sum % 43, true
+}
+
+func getChecksum(content string) string {
+	sum, ok := checksumValue(content)
+	if !ok {
+		return "#"
+	}
 	for r, v := range encodeTable {
 		if v.value == sum {
 			return string(r)
@@ -144,11 +150,8 @@ func EncodeWithColor(content string, includeChecksum bool, fullASCIIMode bool, c
 		result.AddBit(info.data...)
 	}
 
-	checkSum, err := strconv.ParseInt(getChecksum(content), 10, 64)
-	if err != nil {
-		checkSum = 0
-	}
-	return utils.New1DCodeIntCheckSumWithColor(barcode.TypeCode39, content, result, int(checkSum), color), nil
+	checkSum, _ := checksumValue(content)
+	return utils.New1DCodeIntCheckSumWithColor(barcode.TypeCode39, content, result, checkSum, color), nil
 }
 
 // Encode returns a code39 barcode for the given content
